@@ -1,6 +1,7 @@
 CONSTANTS
  Mode = "gen"
  HistLen = 3
+ LenientRelabel = FALSE
  RestartSets = {{}}
  Pinned = FALSE
 INIT IInit
